@@ -332,6 +332,16 @@ func (r *Run) Finish(minNonTrivial int) {
 		}
 		_ = os.WriteFile(filepath.Join(dir, r.ID+".json"), b, 0644)
 	}
+	for i, n := range inconcl {
+		if i >= 6 {
+			fmt.Printf("NOTE (%d more inconclusive sub-cases)\n", len(inconcl)-i)
+			break
+		}
+		if len(n) > 600 {
+			n = n[:600]
+		}
+		fmt.Printf("NOTE inconclusive sub-case: %s\n", strings.ReplaceAll(n, "\n", " | "))
+	}
 	for _, k := range known {
 		fmt.Printf("KNOWN-FINDING: property=%s key=%s %s\n", r.ID, k, r.knownSeen[k])
 	}
@@ -359,7 +369,11 @@ func Scratch(id string) (string, func()) {
 	if err := os.MkdirAll(dir, 0755); err != nil {
 		panic(err)
 	}
-	OnExit(func() { _ = os.RemoveAll(dir) })
+	OnExit(func() {
+		if os.Getenv("VERIF_KEEP_SCRATCH") == "" {
+			_ = os.RemoveAll(dir)
+		}
+	})
 	return dir, func() { _ = os.RemoveAll(dir) }
 }
 
